@@ -163,7 +163,7 @@ def _parse_phoenix_line(line, str_delim='""'):
             if not val_str[end_quote+delim_len:].strip().startswith('#'):
                 raise PhoenixParseError(line)
 
-        return (key, val_str[2:end_quote])
+        return (key, val_str[delim_len:end_quote])
 
     else: #Otherwise try to convert to an int or float
         val = None
